@@ -114,3 +114,94 @@ Definition ren (S1 S2 : list Z) (r : resp) : resp :=
   end.
 
 Definition diag_of (a : action) : list Z := match a with ADiag d => [d] | _ => [] end.
+
+(* ---------------------------------------------------------------------------------------------
+   Micro-step machine: SymbolTable.Add split into its two halves.
+
+   [AIntern] above is ONE atomic action: value.SymbolTableStruct.Add takes the write lock, looks the
+   name up and inserts it when missing, all inside one critical section.  A "fast path" that looks
+   the name up under the read lock and, after a miss, takes the write lock and inserts WITHOUT
+   looking again is two actions of the shared state: [MLook] (the task remembers hit/miss) and
+   [MIns] (on a remembered miss: blind insert, a new id).  Other tasks may run between the two.
+   A micro schedule is [intern_atomic] when every lookup is immediately followed by the same task's
+   insert of the same name, i.e. lookup+insert is one atomic action; exactly then the machine below
+   coincides with [exec] on the collapsed schedule (Proofs: mexec_atomic). *)
+Inductive maction :=
+| MAct (a : action)     (* an action of the coarse model, atomic *)
+| MLook (n : Z)         (* Add, first half: lookup; remembers Some id / None in the task's own state *)
+| MIns (n : Z).         (* Add, second half: remembered hit -> that id; remembered miss -> blind append *)
+
+Definition pending := nat -> option nat.           (* per task: what its last lookup found *)
+Definition pend0 : pending := fun _ => None.
+Definition pend_set (p : pending) (t : nat) (v : option nat) : pending :=
+  fun u => if Nat.eqb u t then v else p u.
+
+Definition mstep (memo env : Z -> Z) (s : shared) (p : pending) (t : nat) (m : maction)
+  : option resp * (shared * pending) :=
+  match m with
+  | MAct a => (Some (fst (step memo env s a)), (snd (step memo env s a), p))
+  | MLook n => (None, (s, pend_set p t (index n (syms s))))
+  | MIns n =>
+      match p t with
+      | Some i => (Some (RId i), ({| diags := diags s; syms := syms s; cache := cache s |}, p))
+      | None => (Some (RId (List.length (syms s))),
+                 ({| diags := diags s; syms := syms s ++ [n]; cache := cache s |}, p))
+      end
+  end.
+
+Fixpoint mexec (memo env : Z -> Z) (mev : list (nat * maction)) (s : shared) (p : pending)
+  : list (nat * resp) * shared :=
+  match mev with
+  | [] => ([], s)
+  | (t, m) :: r =>
+      let x := fst (mstep memo env s p t m) in
+      let sp := snd (mstep memo env s p t m) in
+      let rest := mexec memo env r (fst sp) (snd sp) in
+      (match x with Some y => (t, y) :: fst rest | None => fst rest end, snd rest)
+  end.
+
+(* the coarse schedule a micro schedule stands for: the Add happens where its insert half is *)
+Fixpoint collapse (mev : list (nat * maction)) : list (nat * action) :=
+  match mev with
+  | [] => []
+  | (t, MAct a) :: r => (t, a) :: collapse r
+  | (t, MLook _) :: r => collapse r
+  | (t, MIns n) :: r => (t, AIntern n) :: collapse r
+  end.
+
+(* ... and the micro schedule in which every Add of a coarse schedule is one critical section *)
+Fixpoint expand (ev : list (nat * action)) : list (nat * maction) :=
+  match ev with
+  | [] => []
+  | (t, AIntern n) :: r => (t, MLook n) :: (t, MIns n) :: expand r
+  | (t, a) :: r => (t, MAct a) :: expand r
+  end.
+
+(* lookup + insert is one atomic action: nothing is scheduled between the two halves of an Add *)
+Fixpoint intern_atomic_b (mev : list (nat * maction)) : bool :=
+  match mev with
+  | [] => true
+  | (t, MLook n) :: r =>
+      match r with
+      | (t', MIns n') :: r' => Nat.eqb t t' && Z.eqb n n' && intern_atomic_b r'
+      | _ => false
+      end
+  | (_, MIns _) :: _ => false
+  | (_, MAct (AIntern _)) :: _ => false     (* every Add goes through its two halves *)
+  | (_, MAct _) :: r => intern_atomic_b r
+  end.
+Definition intern_atomic (mev : list (nat * maction)) : Prop := intern_atomic_b mev = true.
+
+(* well-formed micro schedule (atomic or not): every insert is the same task's next micro action
+   after its lookup of the same name - what the split Add does; other TASKS may come in between *)
+Fixpoint split_wf_b (open : list (nat * Z)) (mev : list (nat * maction)) : bool :=
+  match mev with
+  | [] => match open with [] => true | _ => false end
+  | (t, MLook n) :: r =>
+      negb (existsb (fun o => Nat.eqb (fst o) t) open) && split_wf_b ((t, n) :: open) r
+  | (t, MIns n) :: r =>
+      existsb (fun o => Nat.eqb (fst o) t && Z.eqb (snd o) n) open &&
+      split_wf_b (filter (fun o => negb (Nat.eqb (fst o) t)) open) r
+  | (t, MAct _) :: r =>
+      negb (existsb (fun o => Nat.eqb (fst o) t) open) && split_wf_b open r
+  end.
